@@ -133,6 +133,26 @@ pub(super) fn optimize(
     &optimizable_while_loop.basic_induction_variable_with_loop_guard.increment_amount,
     &only_relevant_induction_loop_variables.multiplier,
   )?;
+  // The new guard compares m * i + c against m * n + c instead of i against n. They only agree
+  // when these values do not wrap around. With constant operands, we can check the new bound
+  // and every i within one step of n, which includes the first i that breaks the guard.
+  if let (
+    PotentialLoopInvariantExpression::Int(m),
+    PotentialLoopInvariantExpression::Int(c),
+    PotentialLoopInvariantExpression::Int(n),
+    PotentialLoopInvariantExpression::Int(step),
+  ) = (
+    &only_relevant_induction_loop_variables.multiplier,
+    &only_relevant_induction_loop_variables.immediate,
+    &optimizable_while_loop.basic_induction_variable_with_loop_guard.guard_expression,
+    &optimizable_while_loop.basic_induction_variable_with_loop_guard.increment_amount,
+  ) {
+    let (n, step) = (i64::from(*n), i64::from(*step).abs());
+    let wraps = |i: i64| i32::try_from(i64::from(*m) * i + i64::from(*c)).is_err();
+    if wraps((n - step).max(i64::from(i32::MIN))) || wraps((n + step).min(i64::from(i32::MAX))) {
+      return None;
+    }
+  }
 
   let new_initial_value_temp_temporary = counter.alloc_temp_str();
   let new_initial_value_name = counter.alloc_temp_str();
